@@ -5,7 +5,7 @@ import numpy as np
 from hypothesis import strategies as st
 
 from .. import build
-from ..runner import drive
+from ..runner import Violation, drive
 
 RULE = ("All loadable stock dynamic cases (each a different combination of generator / exciter / governor / PSS / "
         "renewable / load / measurement models) and generated variants built from their rows: drawn dynamic devices "
@@ -24,6 +24,12 @@ ASSUMPTIONS = [
     "Drift bound of the undisturbed run: 50*tol*(1+|x|) over 1 s at the default step; states with zero time constant (algebraic, undetermined inside bypassed filters) and cases driven by a TimeSeries are exempt.",
     "A case whose own data put a limiter at its bound at initialisation is not 'inside all limiter ranges' and only the verdict-consistency clause applies.",
 ]
+
+
+# groups whose devices can be taken out of service one at a time without moving the operating point of the rest:
+# controllers hold their output at the initial value (exciters, governors), stabilisers and measurement devices have zero
+# steady-state output, a dynamic load hands the load back to its static load
+OFFLINE_NEUTRAL = ('Exciter', 'TurbineGov', 'PSS', 'DynLoad', 'FreqMeasurement', 'PhasorMeasurement')
 
 
 def dyn_paths(quick):
@@ -60,10 +66,11 @@ def build_variant(c):
                                              'FreqMeasurement', 'PhasorMeasurement', 'VoltComp')]
         if not cands:
             return None, info
-        m = cands[c['sel'] % len(cands)]
+        m = c['offline_model'] if c.get('offline_model') in cands else cands[c['sel'] % len(cands)]
         k = c['sel'] % len(rows[m])
         rows[m][k]['u'] = 0
         info['note'] = 'offline %s[%d]' % (m, k)
+        info['offline_model'], info['offline_group'] = m, ss0.models[m].group
     elif v == 'offline_syn' and syn_models:
         # a synchronous machine taken out of service together with the controllers attached to it; its static
         # generator stays in the data (in service): the plant keeps injecting its power-flow power
@@ -171,6 +178,7 @@ def init_case(ctx, c):
     tol = ss.TDS.config.tol
     test_ok = ss.TDS.test_ok
     brief = dict(c, note=info['note'])
+    off = {k: info[k] for k in ('offline_model', 'offline_group') if k in info}
     classes = sorted(m for m, mdl in ss.exist.tds.items() if mdl.n and not mdl.flags.pflow and mdl.group != 'TimedEvent')
     ctx.extra.setdefault('model_classes_reached', {})
     for m in classes:
@@ -193,7 +201,7 @@ def init_case(ctx, c):
     if test_ok and not actual_ok:
         i = int(np.nanargmax(np.abs(fg))) if not has_nan else int(np.argmax(~np.isfinite(fg)))
         ctx.fail('success_reported_with_nonzero_residual', dict(case=brief, residual=res, nan=has_nan, where=ss.dae.xy_name[i], tol=tol),
-                 sig=dict(nan=has_nan))
+                 sig=dict(nan=has_nan, offline_model=info.get('offline_model'), offline_group=info.get('offline_group')))
     if (not test_ok) and actual_ok and res < 0.5 * tol:
         ctx.fail('failure_reported_with_zero_residual', dict(case=brief, residual=res, tol=tol), sig=dict())
     if (not test_ok) and ss.exit_code <= code0:
@@ -204,12 +212,18 @@ def init_case(ctx, c):
     for mname, mdl in ss.exist.tds.items():
         if mdl.n == 0:
             continue
+        # the operating point of a device that is out of service is not an operating point: only in-service devices count
+        online = np.asarray(mdl.u.v, dtype=float) != 0 if hasattr(mdl, 'u') else np.ones(mdl.n, dtype=bool)
+        if 'ue' in mdl.__dict__ and hasattr(mdl.ue, 'v') and np.size(mdl.ue.v) == mdl.n:
+            online = online & (np.asarray(mdl.ue.v, dtype=float) != 0)
         for dname, d in mdl.discrete.items():
             for fl in ('zl', 'zu'):
-                if fl in d.export_flags and np.any(np.asarray(getattr(d, fl)) != 0):
-                    # offline devices count too: their zeroed inputs can lie outside their own limiter range
-                    flags_inside = False
-                    at_limit.append('%s.%s_%s' % (mname, dname, fl))
+                if fl in d.export_flags:
+                    fv = np.asarray(getattr(d, fl))
+                    hit = np.any(fv[online] != 0) if fv.shape == online.shape else np.any(fv != 0)
+                    if hit:
+                        flags_inside = False
+                        at_limit.append('%s.%s_%s' % (mname, dname, fl))
     gam_ok = True
     for name in ('GENROU', 'GENCLS', 'PLBVFU1'):
         pass
@@ -247,10 +261,14 @@ def init_case(ctx, c):
             except Exception:
                 pass
     pre = info['consistent'] and flags_inside and gam_ok and well_posed_network and checkers_ok
+    if c['variant'] == 'offline' and c.get('asis_ok') and info.get('offline_group') in OFFLINE_NEUTRAL and not test_ok and well_posed_network and gam_ok:
+        i = int(np.nanargmax(np.abs(fg)))
+        ctx.fail('offline_device_breaks_initialisation', dict(case=brief, residual=res, where=ss.dae.xy_name[i]),
+                 sig=dict(offline_model=info.get('offline_model'), offline_group=info.get('offline_group')))
     if pre and not test_ok:
         i = int(np.nanargmax(np.abs(fg)))
         ctx.fail('consistent_case_fails_to_initialise', dict(case=brief, residual=res, where=ss.dae.xy_name[i], classes=classes),
-                 sig=dict(path=c['path'], variant=c['variant']))
+                 sig=dict(path=c['path'], variant=c['variant'], offline_model=info.get('offline_model'), offline_group=info.get('offline_group')))
     if not pre:
         ctx.count('precondition:not_met' + ('' if info['consistent'] else ':inconsistent_by_construction')
                   + ('' if flags_inside else ':limiter_at_bound') + ('' if gam_ok else ':gamma_sum')
@@ -317,7 +335,7 @@ def init_case(ctx, c):
             if np.any(d > lim):
                 i = int(np.argmax(d - lim))
                 ctx.fail('undisturbed_run_drifts', dict(case=brief, state=ss.dae.x_name[i], x0=float(x0[i]), x1=float(ss.dae.x[i]),
-                                                        allowed=float(lim[i])), sig=dict(path=c['path']))
+                                                        allowed=float(lim[i])), sig=dict(path=c['path'], **off))
             ctx.count('flat_run:checked')
     if len(classes) >= 2:
         ctx.nontrivial(brief, sample=dict(case=brief, classes=classes, test_ok=bool(test_ok), residual=res, precondition=pre))
@@ -340,8 +358,46 @@ def camp_init(ctx):
     drive(ctx, init_cases(paths), body, 12 if quick else 120, name='init', chunk=6, shrink=False, budget_s=120 if quick else 1500)
 
 
+def camp_offline_each(ctx):
+    """Every dynamic model class that occurs in a stock case is taken out of service once (first case that has it; the device
+    is drawn from the seed), next to the same case as it is."""
+    quick = ctx.tier == 'quick'
+    paths = dyn_paths(False)
+    seen = {}
+    for p in paths:
+        try:
+            ss0 = build.load_case(os.path.join(build.cases_root(), p), setup=False)
+        except Exception:
+            continue
+        for m, mdl in ss0.models.items():
+            if mdl.n and mdl.flags.tds and not mdl.flags.pflow and mdl.group in OFFLINE_NEUTRAL + ('DG', 'RenGen', 'RenExciter', 'RenPlant', 'Motor', 'VoltComp') \
+                    and m not in seen:
+                seen[m] = p
+    todo = sorted(seen.items())
+    asis = {}
+    for k, (m, p) in enumerate(todo):
+        if k % ctx.nshards != ctx.shard:
+            continue
+        if p not in asis:
+            c0 = dict(path=p, variant='asis', sel=0, gamma=0.5, bad_sum=1.2)
+            try:
+                ss, _ = build_variant(c0)
+                asis[p] = bool(ss.PFlow.run()) and (ss.TDS.init() is not None) and ss.TDS.test_ok is True
+            except Exception:
+                asis[p] = False
+        c = dict(path=p, variant='offline', offline_model=m, sel=ctx.seed + k, gamma=0.5, bad_sum=1.2, asis_ok=asis[p])
+        ctx.current_case = c
+        ctx.evaluated()
+        ctx.count('offline_each:' + m)
+        try:
+            init_case(ctx, c)
+        except Violation as v:       # keep going: one root cause per model class
+            ctx.record_violation(v, c, shrunk=False)
+
+
 CAMPAIGNS = {
-    'init': dict(fn=camp_init, shards=dict(quick=16, thorough=16)),
+    'init': dict(fn=camp_init, shards=dict(quick=12, thorough=16)),
+    'offline_each': dict(fn=camp_offline_each, shards=dict(quick=6, thorough=8)),
 }
 
 
